@@ -60,7 +60,7 @@ limitations under the License.
 ){{ " noexcept" if type_def.cpp.noexcept }} {
     ::pydjinni::jni::ScopedJni jni {};
     const auto& data = ::pydjinni::JniClass<{{ type_def.jni.translator }}>::get();
-    {{ "auto jret = " if type_def.return_type_ref }}jni.env->{{ type_def.jni.routine_name }}(Handle::get().get(), data.method_invoke
+    {{ ("auto jret = (" ~ type_def.jni.return_type_spec ~ ")") if type_def.return_type_ref }}jni.env->{{ type_def.jni.routine_name }}(Handle::get().get(), data.method_invoke
     /*>- for parameter in type_def.parameters -*/
         , ::pydjinni::get({{ parameter.jni.translator }}::fromCpp(jni.env, {{ parameter.cpp.name }}))
     /*>- endfor -*/
